@@ -259,7 +259,7 @@ impl Prop for C16 {
             v.push(format!("curve:order{}", o));
             v.push(format!("fx:order{}", o));
         }
-        for c in ["curve:calendar:Cal", "curve:calendar:UnionCal", "curve:calendar:NamedCal", "curve:index_base:some", "curve:index_base:none", "spline:solved", "spline:unsolved", "fx:saved-after-quote-updates", "fx:saved-as-built", "float:subnormal", "float:random-bits", "name:non-ascii", "name:quote", "name:empty"] {
+        for c in ["curve:calendar:Cal", "curve:calendar:UnionCal", "curve:calendar:NamedCal", "curve:index_base:some", "curve:index_base:none", "spline:solved", "spline:unsolved", "fx:saved-after-quote-updates", "fx:saved-as-built", "fx:saved-after-update-attempts-that-must-be-refused", "float:subnormal", "float:random-bits", "name:non-ascii", "name:quote", "name:empty"] {
             v.push(c.to_string());
         }
         v
@@ -577,10 +577,13 @@ fn run_kind(_: (), kind: &str, r: &mut Rng) -> Outcome {
             }
         }
         "FXRates" => {
-            let (o, m, order, hist, via_two) = gen_fxrates(r);
+            let (o, m, order, hist, via_two, refused) = super::objgen::gen_fxrates_h(r);
             cls.push(format!("fx:order{}", order));
             cls.push(if hist > 0 { "fx:saved-after-quote-updates".to_string() } else { "fx:saved-as-built".to_string() });
-            let d = json!({"market (latest quotes)": m.describe(), "order": order, "successful_updates_before_saving": hist, "matrix_descends_from_second_order_build": via_two});
+            if refused > 0 {
+                cls.push("fx:saved-after-update-attempts-that-must-be-refused".to_string());
+            }
+            let d = json!({"market (latest quotes)": m.describe(), "order": order, "successful_updates_before_saving": hist, "update_attempts_that_must_be_refused_before_saving": refused, "matrix_descends_from_second_order_build": via_two});
             let mut at_one = o.clone();
             let _ = at_one.set_ad_order(ADOrder::One);
             let out = (|| {
